@@ -392,7 +392,9 @@ class Procs(object):
       raise RuntimeError('the C++ parser is only ever run in real processes')
     if which == 'same' and mode == 'reset':
       reset_universe()
-      return json.loads(json.dumps(serve_job(job)))
+      # the simulated process gets its own copy of the request (as the real ones do through the
+      # pipe): whatever it does to the caller's lists and dicts must not outlive it
+      return json.loads(json.dumps(serve_job(json.loads(json.dumps(job)))))
     if which == 'same' and mode == 'fork' and self.local_zygote:
       return in_fork(lambda: serve_job(job))
     return self.server(which, mode).ask(job)
